@@ -163,13 +163,23 @@ theorem tokenProcessRequest_SrvFresh {s : State} (h : SrvFresh s) (remote : Remo
     · show s.nextSrv < s.nextSrv + 1
       omega
 
+theorem fireEmptyAck_IFrame (s : State) (remote : Remote) (token : Token) :
+    IFrame s (fireEmptyAck s remote token).1 := by
+  unfold fireEmptyAck
+  split
+  · exact IFrame.refl s
+  · exact (IFrame_of_eq (s := s) (s' := dropPiggy s remote token) rfl rfl).trans (sendBare_IFrame _ _ _ _)
+
 theorem processRequest_SrvFresh {s : State} (h : SrvFresh s) (remote : Remote) (w : Wire) :
     SrvFresh (processRequest s remote w).1 := by
+  have h0 : SrvFresh (fireEmptyAck s remote w.token).1 :=
+    SrvFresh_of_IFrame h (fireEmptyAck_IFrame s remote w.token)
   unfold processRequest
+  simp only
   apply tokenProcessRequest_SrvFresh
   split
-  · exact h
-  · exact h
+  · exact h0
+  · exact h0
 
 theorem recvCode_SrvFresh {s : State} (h : SrvFresh s) (remote : Remote) (mcLocal : Bool) (w : Wire) :
     SrvFresh (recvCode s remote mcLocal w).1 := by
@@ -205,14 +215,14 @@ theorem recv_SrvFresh {s : State} (h : SrvFresh s) (remote : Remote) (mcLocal : 
       · exact h
     · exact h
   · dsimp only
-    generalize hs0 : (if isRequest w.code = true then
+    generalize hs0 : (if dedupable w = true then
         ({ s with recent := s.recent ++ [(⟨remote, w.mid, none, s.now + s.cfg.exchangeLifetime⟩ : Recent)] } : State)
         else s) = s0
     have e0 : IFrame s s0 := by
       rw [← hs0]; split
       · exact IFrame_of_eq rfl rfl
       · exact IFrame.refl s
-    generalize hx : (if (w.mtype == MType.ack || w.mtype == MType.rst) = true then removeExchange s0 remote w
+    generalize hx : (if fitsReply w = true then removeExchange s0 remote w
         else (s0, [])) = x
     have h1 : IFrame s x.1 := by
       rw [← hx]
